@@ -57,10 +57,12 @@ def run(chk):
         chk.record_source(f)
     chk.forbidden_scan(['C08'])
     proved = chk.prove(['theories/C08/Model.v', 'theories/C08/Proofs.v', 'theories/C08/IterProduct.v', 'theories/C08/Run.v'], 'theories/C08/Properties.v')
+    proved = chk.prove(['theories/C15/Keys.v', 'theories/C15/KeysProofs.v', 'theories/C08/Typed.v', 'theories/C08/TypedProofs.v',
+                        'theories/C08/TypedRun.v'], 'theories/C08/TypedProperties.v') and proved
     model_ok = True
     if not proved:
         try:
-            core.coq_make(['theories/C08/Model.v', 'theories/C08/Run.v'])
+            core.coq_make(['theories/C08/Model.v', 'theories/C08/Run.v', 'theories/C08/Typed.v', 'theories/C08/TypedRun.v'])
         except core.CoqError as e:
             chk.notes.append('model does not build: ' + str(e))
             model_ok = False
@@ -158,9 +160,14 @@ def run(chk):
             chk.nontrivial.add(repr(c))
         if i % 499 == 0:
             chk.sample({'case': repr(c)[:200], 'model': model[i]})
+    # ---- typed atomic values: distinct-values / index-of / min / max / sum / avg against C08/Typed.v
+    from props import c08_typed
+    c08_typed.run(chk, model_ok)
     chk.rule = ('function grid: sequences <= 5 x position arguments -2..6 / doubles {NaN, +-INF, halves -2.5..6, neighbours of .5} '
                 'x insertion sequences; seeded random cases for 17 functions; 12 expression templates (dependent for / some / every, '
                 'simple map, positional and boolean predicates, comma, range) x random sequences; 2.0 and 3.1 parsers; '
+                'typed values: every pair of 55 typed atomic values through distinct-values and index-of, seeded sequences (mostly of one '
+                'comparable group, some mixed) through distinct-values / index-of / min / max / sum / avg; '
                 'non-trivial = non-empty model result, distinct by case')
     chk.obligations.append({'name': 'correspondence:impl==model(list model)', 'ok': not chk.corr_fail,
                             'detail': f'{len(chk.corr_fail)} disagreements' + (': ' + repr(chk.corr_fail[0])[:500] if chk.corr_fail else '')})
